@@ -633,7 +633,14 @@ def poly_inverse(q):
         raise ZeroDivisionError("division by an exactly-zero symbolic value")
     if len(q.t) == 1:
         (k, vs), c = next(iter(q.t.items()))
-        ok = all(CTX.kind[v] == "exp" or CTX.info[v]["nonzero"] for v, e in vs)
+        ok = True
+        for v, e in vs:
+            if CTX.kind[v] != "exp" and not CTX.info[v]["nonzero"]:
+                # a division executes only when the divisor is non-zero: record it as a path assumption
+                CTX.info[v]["nonzero"] = True
+                msg = f"division by {CTX.names[v]}: assumed non-zero"
+                if msg not in CTX.assumed:
+                    CTX.assumed.append(msg)
         if ok:
             nv = tuple((v, -e) for v, e in vs)
             out = Poly({(0, nv): 1 / c})
